@@ -10,11 +10,31 @@ From V.proofs Require Import SysProofs.
    (regenerated from dispatch.go on every run). *)
 Theorem C25_independent : forall i l l',
   step_at i l = Ok l' ->
-  length l' = length l /\
+  (length l' = length l)%nat /\
   (forall j d, j <> i -> nth j l' d = nth j l d) /\
   (forall x, nth_error l i = Some x -> exists y, sys_cycle x = Ok y /\ nth_error l' i = Some y).
 Proof. exact instances_independent. Qed.
 Print Assumptions C25_independent.
 
+(* ... and for every schedule (any interleaving of the instances' machine cycles): instance j ends exactly where its solo
+   run of as many cycles as it was scheduled ends. *)
+Theorem C25_schedule : forall sch l l',
+  run_sched sch l = Ok l' ->
+  (length l' = length l)%nat /\
+  forall j x, nth_error l j = Some x ->
+    exists y, sys_cycles (count_occ PeanoNat.Nat.eq_dec sch j) x = Ok y /\ nth_error l' j = Some y.
+Proof. exact schedule_independent. Qed.
+Print Assumptions C25_schedule.
+
 Theorem C25_tables_per_instance : tables_package_level = false.
 Proof. exact tables_per_instance. Qed.
+Print Assumptions C25_tables_per_instance.
+
+(* non-vacuity: two machines built from different images, stepped in an interleaved schedule *)
+From V.model Require Import Cart.
+Example C25_example :
+  let i1 := mkImage 32768 (fun a => if a =? 327 then 19 else if a =? 329 then 3 else 0) in
+  let i2 := mkImage 32768 (fun a => if a =? 256 then 24 else if a =? 257 then 254 else 0) in
+  exists a b, sys_new i1 true false = Ok a /\ sys_new i2 false false = Ok b /\
+              is_ok (run_sched [0; 1; 1; 0; 1; 0; 0; 1]%nat [a; b]) = true.
+Proof. eexists. eexists. split; [vm_compute; reflexivity|]. split; [vm_compute; reflexivity|]. vm_compute. reflexivity. Qed.
